@@ -21,7 +21,9 @@ func (w *World) hostileProcResult(p *simProc, recs []opencdc.Record, d decision)
 	}
 	shape := procShapes[(d.arg>>11)%len(procShapes)]
 	rev := p.settings["rev"]
-	ok := func(r opencdc.Record) sdk.ProcessedRecord { return sdk.SingleRecord(stamp(r, p.sys.cfg.ID, p.gen, rev)) }
+	ok := func(r opencdc.Record) sdk.ProcessedRecord {
+		return sdk.SingleRecord(stamp(r, p.sys.cfg.ID, p.gen, rev))
+	}
 	var out []sdk.ProcessedRecord
 	switch shape {
 	case "more":
